@@ -737,6 +737,25 @@ impl Net {
 					self.drain();
 				}
 			},
+			"pause_flush" => {
+				let i = op["node"].as_u64().unwrap() as usize;
+				let on = op["on"].as_bool().unwrap_or(true);
+				if i < n {
+					self.nodes[i].chain_monitor.pause_flush.store(on, std::sync::atomic::Ordering::Release);
+					self.ev(json!({"ev":"pause_flush","node":i,"on":on}));
+					if !on { self.drain(); }
+				} else { did = false; }
+			},
+			"flush" => {
+				let i = op["node"].as_u64().unwrap() as usize;
+				if i < n && self.nodes[i].chain_monitor.pending_operation_count() > 0 {
+					let cnt = self.nodes[i].chain_monitor.pending_operation_count();
+					let k = if op["all"].as_bool().unwrap_or(false) { cnt } else { 1 };
+					self.ev(json!({"ev":"flush","node":i,"count":k}));
+					self.nodes[i].chain_monitor.chain_monitor.flush(k, &self.nodes[i].logger);
+					self.drain();
+				} else { did = false; }
+			},
 			"close" => {
 				let a = op["a"].as_u64().unwrap() as usize;
 				let b = op["b"].as_u64().unwrap() as usize;
@@ -994,7 +1013,16 @@ fn build_net(run: u64, cfg: &Value, log: &Log) -> Net {
 		snapshots: Mutex::new(Vec::new()), last_cp: Mutex::new(HashMap::new()), pending: Mutex::new(Vec::new()),
 		keys: &cfgs[i].keys_manager, fee_est: &cfgs[i].fee_estimator, logger: &cfgs[i].logger, txids: txids.clone(),
 	}).collect());
-	let node_cfgs = leak(create_node_cfgs_with_persisters(n, cfgs, persisters.iter().collect()));
+	let mut node_cfgs_v = create_node_cfgs_with_persisters(n, cfgs, persisters.iter().collect());
+	let deferred = cfg["deferred"].as_bool().unwrap_or(false);
+	if deferred {
+		// deferred ChainMonitor mode: watch/update calls are queued and handed to Persist on flush
+		for i in 0..n {
+			node_cfgs_v[i].chain_monitor = TestChainMonitor::new_deferred(Some(&cfgs[i].chain_source), &cfgs[i].tx_broadcaster,
+				&cfgs[i].logger, &cfgs[i].fee_estimator, &persisters[i], &cfgs[i].keys_manager);
+		}
+	}
+	let node_cfgs = leak(node_cfgs_v);
 	let mut uc = test_default_channel_config();
 	uc.channel_handshake_config.our_htlc_minimum_msat = cfg["htlc_min"].as_u64().unwrap_or(1000);
 	match chan_type.as_str() {
@@ -1084,6 +1112,7 @@ fn random_script(rng: &mut StdRng, n: usize, profile: &str) -> Value {
 	let mut ops: Vec<Value> = Vec::new();
 	let steps = rng.gen_range(10..60);
 	let amts = ["big", "dust", "dust-edge", "justabove", "limit", "limit+1", "min", "min-1", "half"];
+	let deferred = (profile == "async" || profile == "deferred") && (profile == "deferred" || rng.gen_bool(0.25));
 	let mut npay = 0usize;
 	let extra_at = if profile == "asyncopen" || (profile == "async" && rng.gen_bool(0.3)) { rng.gen_range(0..steps) } else { usize::MAX };
 	for st in 0..steps {
@@ -1093,6 +1122,10 @@ fn random_script(rng: &mut StdRng, n: usize, profile: &str) -> Value {
 			ops.push(json!({"op":"open_extra","a":a,"b":b}));
 		}
 		if extra_at != usize::MAX && st > extra_at && rng.gen_bool(0.15) { ops.push(json!({"op":"confirm_extra"})); }
+		if deferred && rng.gen_bool(0.25) {
+			let node = rng.gen_range(0..n);
+			match rng.gen_range(0..3) { 0 => ops.push(json!({"op":"pause_flush","node":node,"on":true})), 1 => ops.push(json!({"op":"flush","node":node})), _ => ops.push(json!({"op":"pause_flush","node":node,"on":false})) }
+		}
 		let r = rng.gen_range(0..100);
 		if r < 22 {
 			let src = rng.gen_range(0..n);
@@ -1130,11 +1163,11 @@ fn random_script(rng: &mut StdRng, n: usize, profile: &str) -> Value {
 				ops.push(json!({"op":"crash","node":node,"mgr":rng.gen_range(0..4),"mon":mc}));
 			}
 			for a in 0..n - 1 { if rng.gen_bool(0.8) { ops.push(json!({"op":"reconnect","a":a,"b":a+1})); } }
-		} else if r < 97 && (profile == "async" || profile == "asyncopen") {
+		} else if r < 97 && (profile == "async" || profile == "asyncopen" || profile == "deferred") {
 			ops.push(json!({"op":"persist_mode","node":rng.gen_range(0..n),"mode": if rng.gen_bool(0.6) {"inprogress"} else {"completed"}}));
 		} else if profile == "crash" && rng.gen_bool(0.5) {
 			ops.push(json!({"op":"persist_mode","node":rng.gen_range(0..n),"mode": if rng.gen_bool(0.6) {"inprogress"} else {"completed"}}));
-		} else if profile == "async" || profile == "crash" || profile == "asyncopen" {
+		} else if profile == "async" || profile == "crash" || profile == "asyncopen" || profile == "deferred" {
 			let wh = ["oldest","newest","all","random"][rng.gen_range(0..4)];
 			ops.push(json!({"op":"complete","node":rng.gen_range(0..n),"which":wh}));
 		} else {
@@ -1142,6 +1175,7 @@ fn random_script(rng: &mut StdRng, n: usize, profile: &str) -> Value {
 		}
 	}
 	// wind down: complete everything, reconnect, deliver all, resolve payments, deliver all
+	if deferred { for i in 0..n { ops.push(json!({"op":"pause_flush","node":i,"on":false})); } }
 	for i in 0..n { ops.push(json!({"op":"persist_mode","node":i,"mode":"completed"})); ops.push(json!({"op":"complete","node":i,"which":"all"})); }
 	for a in 0..n - 1 { ops.push(json!({"op":"reconnect","a":a,"b":a+1})); }
 	ops.push(json!({"op":"deliver_all"}));
@@ -1155,7 +1189,7 @@ fn random_script(rng: &mut StdRng, n: usize, profile: &str) -> Value {
 		if rng.gen_bool(0.5) { ops.push(json!({"op":"close","a":a,"b":a+1})); } else { ops.push(json!({"op":"close","a":a+1,"b":a})); }
 		ops.push(json!({"op":"deliver_all"}));
 	}
-	json!({"cfg":{"nodes":n,"chan_type":chan_type,"value":value,"push":push,"feerate":feerate}, "ops":ops})
+	json!({"cfg":{"nodes":n,"chan_type":chan_type,"value":value,"push":push,"feerate":feerate,"deferred":deferred}, "ops":ops})
 }
 
 fn main() {
